@@ -115,13 +115,13 @@ PROPS["C12"] = {
              "input.Plain (as the listener does with its connections and datagrams) through channel-gated readers; the harness draws the "
              "schedule (which stream gets its next chunk; a chunk is fully consumed before the next grant); every stream's lines must come "
              "out exactly as its own reference split, no line may mix bytes of two streams. Non-trivial: >=2 lines and >=1 cut strictly inside a line (datagram / "
-             "AMQP: >=2 lines over >=1 message). Distinct = hash(stream, cuts, end mode)."),
+             "AMQP: >=2 lines over >=1 message). Distinct = hash(stream, cuts, end mode). slow_sender: a started TCP listener with a read timeout T of 0.6-1 s; a client sends 2-6 lines in 3-5 pieces cut inside lines with pauses of 0 / 0.3 / 0.45 / 0.7 T between them (no pause reaches T); the relay must process exactly the lines of the stream; a case whose measured gap exceeded 0.85 T (harness delayed) is discarded."),
     "level_text": "Generated streams x segmentations (exhaustive cut positions for short streams) against a reference line splitter at all four entry points; holds on everything generated.",
     "level_note": "Lines longer than the supported limits (64 KiB incl. terminator on TCP/UDP, 4096 bytes incl. terminator on AMQP) are outside the generated domain; empty lines may be dispatched or skipped.",
     "technique": "property-based testing (rapid): reference-model oracle + metamorphic invariance under segmentation; native go fuzz target in the thorough tier",
     "assumptions": ["net.Pipe stands in for a TCP connection (real sockets are used by C05-C07)"],
-    "quick": [R("TestPropPlainChunking", 3000), R("TestPropListenerConn", 600), R("TestPropListenerDatagram", 2000), R("TestPropAMQPBodies", 1500), R("TestPropInterleavedStreams", 3000), R("TestPropRealUDPSocket", 400)],
-    "thorough": [R("TestPropPlainChunking", 40000, shards=8, timeout=2400), R("TestPropListenerConn", 6000, shards=3, timeout=2400),
+    "quick": [R("TestPropPlainChunking", 3000), R("TestPropListenerConn", 600), R("TestPropListenerDatagram", 2000), R("TestPropAMQPBodies", 1500), R("TestPropInterleavedStreams", 3000), R("TestPropRealUDPSocket", 400), R("TestPropSlowSender", 12)],
+    "thorough": [R("TestPropSlowSender", 60, shards=2, timeout=2400), R("TestPropPlainChunking", 40000, shards=8, timeout=2400), R("TestPropListenerConn", 6000, shards=3, timeout=2400),
                  R("TestPropListenerDatagram", 40000, shards=2, timeout=2400), R("TestPropAMQPBodies", 20000, shards=2, timeout=2400),
                  R("TestPropInterleavedStreams", 40000, shards=2, timeout=2400), R("TestPropRealUDPSocket", 3000, shards=3, timeout=2400), F("FuzzPlainChunking", "120s")],
 }
